@@ -1,5 +1,6 @@
 import DriverLib.Basic
 import QV.Model.Batching
+import DriverLib.CallForm
 open Lean Drv QV QV.Batching
 
 namespace Drv.C07
@@ -104,6 +105,7 @@ def handle (op : String) (j : Json) : Option (R Json) :=
   | "c07.epoch" => some (epoch j)
   | "c07.heap" => some (heap j)
   | "c07.refbasis" => some (refbasis j)
+  | "c07.bind" => some (Drv.CallForm.bindOp j)
   | _ => none
 
 end Drv.C07
